@@ -11,10 +11,11 @@ cd "$WT" || exit 2
 git checkout -q -- . ; rm -f tests/demo.rs
 git apply --check "$SRC/patch.diff" || { echo "$P-$N: patch does not apply"; exit 1; }
 git apply "$SRC/patch.diff"
-cp "$SRC/demo.rs" tests/demo.rs
 out=$(cargo test --workspace --no-fail-fast --offline 2>&1)
-suite_fail=$(echo "$out" | grep -E "^test .* FAILED" | grep -v "demo" | wc -l)
+suite_fail=$(echo "$out" | grep -E "^test .* FAILED" | wc -l)
+echo "$out" | grep -qE "^error" && suite_fail=999
 passed=$(echo "$out" | grep -E "^test result" | awk '{s+=$4} END{print s}')
+cp "$SRC/demo.rs" tests/demo.rs
 demo_with=$(cargo test --offline --test demo 2>&1 | grep -E "^test result" | head -1)
 git checkout -q -- .
 demo_without=$(timeout 600 cargo test --offline --test demo 2>&1 | grep -E "^test result" | head -1)
